@@ -266,6 +266,15 @@ def run(ctx):
             except Exception:
                 facts = []
             lazy = (f"self.{tgt} is None", True) in facts and isinstance(n, ast.Attribute)
+            if not lazy and isinstance(n, ast.Attribute) and tgt.startswith("_"):
+                # caches filled together: `if self._a is None: self._a = ..; self._b = ..` (one guard for the pair)
+                for g_txt, g_t in facts:
+                    m_ = g_txt.startswith("self._") and g_txt.endswith(" is None") and g_t
+                    if m_:
+                        other = g_txt[len("self."):-len(" is None")]
+                        blk_ = next((b_ for o_ in ast.walk(f.node) for fld_ in ("body", "orelse") for b_ in [getattr(o_, fld_, None)] if isinstance(b_, list) and st in b_), None)
+                        if blk_ and any(isinstance(s_, ast.Assign) and any(src(t_) == f"self.{other}" for t_ in s_.targets) for s_ in blk_):
+                            lazy = True
             if not lazy and isinstance(n, ast.Attribute):
                 # a private cache: nothing but this getter ever reads the attribute, every other writer only resets it
                 lazy = _private_cache(prog, f, tgt)
